@@ -533,7 +533,9 @@ func (g *generator) genCase(prof string) ([]*pvcase.Case, *caseGen) {
 
 	// ---- options
 	if g.chance(0.3) {
-		o.Filename = "f.peg"
+		// the name is data: nothing in it may be interpreted (format verbs, separators, quotes)
+		names := []string{"f.peg", "f.peg", "my%20file.txt", "100%.peg", "%d%s%v%!", "dir with space/ünï 世界.peg", "a:1:2 (3): rule X", "C:\\x\\y.peg", "-", "\"q\".peg"}
+		o.Filename = names[g.r.IntN(len(names))]
 	}
 	if !fl.Optimize {
 		o.Debug = g.chance(0.04)
